@@ -61,7 +61,7 @@ class SPEC:
         "template's expiryTime under the write lock, before Stop() and delete(); nothing else reads or writes expiryTime - is not "
         "observable with a clock that moves only between steps; it is tied to the source structurally (Generated/Timers.lean, "
         "theorems tie_* of Props/C10.lean) and a change of that structure is reported as a broken obligation, not as a failing input",
-        "template TTL >= 1 second (TTL 0 selects the 1800 s default in initCollectingProcess); clock and deadlines are whole seconds",
+        "clock and deadlines are whole seconds; a configured TTL of 0 selects the default lifetime (Model effectiveTTL, tied to the regenerated constant); 6 % of the random sequences run on such a collector",
         "strict decoding mode; packets reach decodePacket directly (no socket); one packet / one callback step at a time "
         "(the collector's mutex serialises them in the real process; lock-freedom of races is C12/C14's subject)",
     ]
@@ -205,18 +205,33 @@ def exhaustive(ttl, depth, with_data, label):
     return _exhaustive_from(Sim(ttl), depth, with_data, label, 0, 0, [], False)
 
 
+def _default_ttl():
+    import re
+    txt = open(os.path.join(check.LEAN, "IpfixModel", "Generated", "Consts.lean")).read()
+    return int(re.search(r"def cTemplateTTL : Nat := (\d+)", txt).group(1))
+
+
+DEFAULT_TTL = _default_ttl()
+
+
 def random_case(rng, maxlen):
     ttl = rng.choice([1, 2, 3, 3, 5])
     if rng.random() < 0.05:
         # lifetimes of weeks: the configured number of seconds must not lose bits on its way to a time.Duration
         # (4294968 s is the first value whose count of milliseconds no longer fits 32 bits)
         ttl = rng.choice([86400, 4294967, 4294968, 10 ** 7])
+    cfg = ttl
+    if rng.random() < 0.06:
+        # the collector is configured WITHOUT a lifetime: it must use the protocol's default (entities.TemplateTTL = 1800 s)
+        cfg, ttl = 0, DEFAULT_TTL
     extreme = rng.random() < 0.1
     doms = [0, 4294967295] if extreme else DOMS
     ids = [256, 65535] if extreme else IDS
     advs = [0, 1, max(ttl - 1, 0), ttl, ttl + 1, 2 * ttl]
+    if cfg == 0:
+        advs += [600, 599, 601, 1200]      # ... in particular not the 600 s refresh interval
     s = Sim(ttl)
-    ops = ["tm new %d" % ttl]
+    ops = ["tm new %d" % cfg]
     nt = False
     n = rng.randint(7, maxlen)
     for _ in range(n):
